@@ -347,12 +347,15 @@ def h_history(code: int) -> bool:
     pre: 0 <= code < CODEMAX
     post: _
     """
-    nd = NDCode(code)
-    f0 = nd.draw(0, 1)
-    f1 = nd.draw(0, 2)
-    s0 = SIZES[nd.draw(0, len(SIZES) - 1)]
-    s1 = SIZES[nd.draw(0, len(SIZES) - 1)]
-    s2 = SIZES[nd.draw(0, len(SIZES) - 1)]
+    try:
+        nd = NDCode(code)
+        f0 = nd.draw(0, 1)
+        f1 = nd.draw(0, 2)
+        s0 = SIZES[nd.draw(0, len(SIZES) - 1)]
+        s1 = SIZES[nd.draw(0, len(SIZES) - 1)]
+        s2 = SIZES[nd.draw(0, len(SIZES) - 1)]
+    except Prune:
+        return True
     install()
     h = bh.Heap(PAGE)
     if inv(h) is not None:
@@ -395,9 +398,12 @@ def h_wrapper(code: int) -> bool:
     pre: 0 <= code < CODEMAX
     post: _
     """
-    nd = NDCode(code)
-    size = WSIZES[nd.draw(0, len(WSIZES) - 1)]
-    other = WSIZES[nd.draw(0, len(WSIZES) - 1)]
+    try:
+        nd = NDCode(code)
+        size = WSIZES[nd.draw(0, len(WSIZES) - 1)]
+        other = WSIZES[nd.draw(0, len(WSIZES) - 1)]
+    except Prune:
+        return True
     install()
     bh.BufferWrapper._heap = bh.Heap(PAGE)
     w1 = bh.BufferWrapper(size)
